@@ -212,11 +212,59 @@ pub fn check(thorough: bool, _seed: u64) -> Check {
         bounds: json!({"degrees": "0..8", "coefficients": "as in phase knots", "(a,b)": "all ordered pairs of distinct values from {0.25,0.5,1,2,3,10,1e-3,1e-6,1e3,1e7,3e8,1.0007,0.9995,5e-11,1e-17,1e150,2e150,1e200}", "knot": "(2,5)",
             "oracle": "exact q from q_n=p_n, q_i=p_i-(i+1)q_(i+1); G(t)=t*q(L), L=ln t as f64; tolerance 2^-40*sum Qbar_i(a|L_a|^i+b|L_b|^i) + 2 ulp(L) sensitivity"}),
     };
+    // dense sweep of the evaluation point: a branch of the evaluation that switches somewhere between the alphabet values
+    // (series / closed form cut-offs, range reductions) is crossed with a resolution of 2^-9 in ln v over [e^-6, e^6]
+    let sweep = Phase {
+        name: "dense-argument-sweep",
+        units: 9,
+        split: 1,
+        body: Box::new(move |unit, cx| {
+            let d = unit;
+            let steps = if thorough { 12288 } else { 6144 };
+            let i = cx.choose(steps + 1);
+            let t = -6.0 + 12.0 * (i as f64) / (steps as f64);
+            let v = t.exp();
+            let c: Vec<f64> = match cx.choose(2) {
+                0 => LANE_ID[..d + 1].to_vec(),
+                _ => (0..d + 1).map(|j| if j % 2 == 0 { 1.0 } else { -0.75 }).collect(),
+            };
+            let knot = if cx.flag() { Knot { x: 2.0, y: 5.0 } } else { Knot { x: v, y: -1.25 } };
+            cx.nontrivial();
+            cx.class(if d == 4 { 0 } else { 1 });
+            if cx.sampling() {
+                cx.sample(json!({"degree": d, "coefficients": c, "a": v, "b": 1.5, "knot": [knot.x, knot.y]}));
+            }
+            by_degree!(d, leaf(&c, knot, v, 1.5, cx))
+        }),
+        classes: vec![("quartic_special_form", true), ("generic_form", true)],
+        bounds: json!({"degrees": "0..8", "a": if thorough {"exp(t), t = -6 + 12 i/12288, every i"} else {"exp(t), t = -6 + 12 i/6144, every i"}, "b": "1.5", "coefficients": "lane identifier and alternating {1,-0.75}",
+            "knot": "(2,5) and (a,-1.25): the swept point is also used as the knot"}),
+    };
+    // coincidences among the coefficients of a quartic: the special form's derived numbers (u, the bracket coefficients) can
+    // vanish exactly, e.g. 4 ln^3 + ln^4 has u = 0
+    let coincide = Phase {
+        name: "quartic-coefficient-cube",
+        units: 1,
+        split: 2,
+        body: Box::new(move |_unit, cx| {
+            let c: Vec<f64> = (0..5).map(|_| [0.0, 1.0, 4.0, -2.0, 0.25][cx.choose(5)]).collect();
+            let (a, b) = [(0.5, 3.0), (1.5, 0.25), (1e-3, 7.5)][cx.choose(3)];
+            let knot = if cx.flag() { Knot { x: 2.0, y: 5.0 } } else { Knot { x: 0.75, y: 0.0 } };
+            cx.nontrivial();
+            cx.class(0);
+            if cx.sampling() {
+                cx.sample(json!({"degree": 4, "coefficients": c, "a": a, "b": b}));
+            }
+            leaf::<Poly4>(&c, knot, a, b, cx)
+        }),
+        classes: vec![("quartic_special_form", true)],
+        bounds: json!({"degree": 4, "coefficients": "every vector in {0,1,4,-2,0.25}^5", "(a,b)": "(0.5,3), (1.5,0.25), (1e-3,7.5)", "knot": "(2,5), (0.75,0)"}),
+    };
     Check {
         id: "C09",
         rule: "choice tree: (degree, knot) resp. (degree, (a,b)) unit x coefficient vector; each leaf runs the real Log<PolyN>::integral / indefinite and evaluates the result at knot.x, a and b through its real evaluate; non-trivial = a, b (and knot.x) different from 1".into(),
         assumptions: vec!["f64::ln within 1 ulp (its rounding is propagated into the tolerance)".into()],
-        phases: vec![knots, pairs_ph],
+        phases: vec![knots, pairs_ph, sweep, coincide],
         extra: Default::default(),
         controls: vec![("oracle G reproduces the integral of ln t: t ln t - t", Box::new(|| {
             let (q, m) = exact_q(&[0.0, 1.0]);
